@@ -1,7 +1,8 @@
 #!/usr/bin/env python3
 """Proof audit for one Props module.
 
-* lists the theorems of /verif/lean/Chewing/Props/<Cxx>.lean (from the source text),
+* lists the theorems of /verif/lean/Chewing/Props/<Cxx>.lean and of its linked companions Props/<Cxx><Suffix>.lean
+  (from the source text),
 * asks Lean for `#print axioms` of each (through `lake env lean` on a generated file that
   imports the compiled module), accepts only {propext, Classical.choice, Quot.sound},
 * scans Model/, Proofs/, Props/ for sorry / admit / axiom / native_decide / bv_decide /
@@ -81,10 +82,18 @@ def main():
     module = f"Chewing.Props.{prop}"
     path = os.path.join(LEAN, "Chewing", "Props", prop + ".lean")
     thms = theorems_of(path)
+    # linked statements that cannot live in Props/<Cxx>.lean because of the import order (e.g. Props/C04Editor.lean:
+    # C01's proofs import Props/C04.lean) are audited with the property: Props/<Cxx><Suffix>.lean
+    extra = sorted(fn[:-5] for fn in os.listdir(os.path.dirname(path))
+                   if fn.startswith(prop) and fn.endswith(".lean") and fn[len(prop):-5].isalpha())
+    for name in extra:
+        thms += theorems_of(os.path.join(LEAN, "Chewing", "Props", name + ".lean"))
     res = {"theorems": thms, "axioms": {}, "bad": [], "scan_hits": scan(), "error": None}
     if thms:
         with tempfile.NamedTemporaryFile("w", suffix=".lean", dir=LEAN, delete=False) as f:
             f.write(f"import {module}\n")
+            for name in extra:
+                f.write(f"import Chewing.Props.{name}\n")
             for t in thms:
                 f.write(f"#print axioms {t}\n")
             tmp = f.name
